@@ -20,3 +20,8 @@ open Neutrino.BM
 #print axioms C19_midbatch_subscriber
 #print axioms C19_midbatch_gap_counterexample
 #print axioms C19_source_facts
+#print axioms C19_rendezvous_no_lag
+#print axioms C19_buffered_lag_counterexample
+#print axioms C19_buffered_subscriber_counterexample
+#print axioms rollBack_trace_strict
+#print axioms conn_replay_strict
